@@ -19,6 +19,13 @@ As in `Cover.lean` everything holds in a `Field` with an arbitrary `LinearOrder`
 order and arithmetic (`IsStrictOrderedRing`) and reflexivity of the approximate comparisons are
 explicit hypotheses of the few theorems (`…_ordered`, `…_refl`) that use them to discard untraced
 paths as infeasible.  Untraced paths are tied to the model by the differential layer only.
+
+STATUS: this file describes the SECOND wave.  Its "NOT exhaustive" remarks and `…Untraced` lists are about the path lists of this
+file; the remainders were traced in the next waves.  C13 (`normalize_signed`, `opposite`, `bisect`, both units; kernels of
+`Cgm/Trace/C13More.lean`) is closed in `Cgm/Trace/Cover3.lean` (exhaustive in an ordered field); `perspective` (all entry points),
+`from_arc`, `Basis3::between_vectors`, `Quaternion::look_at`, `Basis2::look_at_stable`, the `Decomposed` `look_at` /
+`inverse_transform_vector` of `Basis3` / `Basis2` are exhaustive, and `planar` has its exact remainder, in `Cgm/Trace/Cover4.lean`
+(kernels of `Cgm/Trace/C08More.lean`, `C09More.lean`, `C10More.lean`, `C15More.lean`).  Each such docstring names the later theorem.
 -/
 set_option linter.unusedSectionVars false
 set_option linter.unusedSimpArgs false
@@ -117,7 +124,7 @@ theorem deg_normalize_signed_partition_all (a : K) :
   grind (splits := 40)
 theorem deg_normalize_signed_excl (a : K) : Excl (degNormalizeSignedPaths a) :=
   excl_append_left _ _ (deg_normalize_signed_partition_excl a)
-/-- NOT exhaustive: the covered set is the complement of the two untraced paths -/
+/-- NOT exhaustive (this file's path list; the remainder was traced later: exhaustive in `Cover3.deg_normalize_signed_cover_ordered`): the covered set is the complement of the two untraced paths -/
 theorem deg_normalize_signed_cover (a : K) :
     AnyOf (degNormalizeSignedPaths a) ↔ ¬ AnyOf (degNormalizeSignedUntraced a) :=
   cover_of_partition _ _ (deg_normalize_signed_partition_excl a) (deg_normalize_signed_partition_all a)
@@ -141,7 +148,7 @@ def radNormalizeSignedPaths (a : K) : List Prop := Cover.radNormalizeSignedPaths
 /-- untraced: remainder negative or zero (every continuation), or positive and equal to the half turn -/
 def radNormalizeSignedUntraced (a : K) : List Prop := Cover.radNormalizeSignedUntraced a
 theorem rad_normalize_signed_excl (a : K) : Excl (radNormalizeSignedPaths a) := Cover.rad_normalize_signed_excl a
-/-- NOT exhaustive: covered exactly: positive remainder different from the half turn -/
+/-- NOT exhaustive (this file's path list; the remainder was traced later: exhaustive in `Cover3.rad_normalize_signed_cover_ordered`): covered exactly: positive remainder different from the half turn -/
 theorem rad_normalize_signed_cover (a : K) :
     AnyOf (radNormalizeSignedPaths a) ↔
       (0 < FRem.frem a (Lits.radFull : K) ∧ FRem.frem a Lits.radFull ≠ (Lits.radFull : K) / 2) :=
@@ -166,7 +173,7 @@ def radOppositePaths (a : K) : List Prop := Cover.radOppositePaths a
 def radOppositeUntraced (a : K) : List Prop :=
   [ FRem.frem (a + Lits.radFull / 2) (Lits.radFull : K) < 0, FRem.frem (a + Lits.radFull / 2) (Lits.radFull : K) = 0 ]
 theorem rad_opposite_excl (a : K) : Excl (radOppositePaths a) := Cover.rad_opposite_excl a
-/-- NOT exhaustive -/
+/-- NOT exhaustive (this file's path list; the remainder was traced later: exhaustive in `Cover3.rad_opposite_cover`) -/
 theorem rad_opposite_cover (a : K) :
     AnyOf (radOppositePaths a) ↔ 0 < FRem.frem (a + Lits.radFull / 2) (Lits.radFull : K) :=
   Cover.rad_opposite_cover a
@@ -233,7 +240,7 @@ theorem deg_bisect_partition_all (a b : K) : AnyOf (degBisectPaths a b ++ degBis
   grind (splits := 40)
 theorem deg_bisect_excl (a b : K) : Excl (degBisectPaths a b) :=
   excl_append_left _ _ (deg_bisect_partition_excl a b)
-/-- NOT exhaustive: the covered set is the complement of the eight untraced paths -/
+/-- NOT exhaustive (this file's path list; the remainder was traced later: exhaustive in `Cover3.deg_bisect_cover_ordered`): the covered set is the complement of the eight untraced paths -/
 theorem deg_bisect_cover (a b : K) : AnyOf (degBisectPaths a b) ↔ ¬ AnyOf (degBisectUntraced a b) :=
   cover_of_partition _ _ (deg_bisect_partition_excl a b) (deg_bisect_partition_all a b)
 
@@ -249,7 +256,7 @@ def radBisectSigned (a b : K) : K :=
   else FRem.frem (b - a) Lits.radFull
 theorem rad_bisect_excl (a b : K) : Excl (radBisectPaths a b) := by
   simp only [radBisectPaths, AnyOf, Excl]; grind
-/-- NOT exhaustive: covered exactly: the remainder of the difference is positive and not the half turn,
+/-- NOT exhaustive (this file's path list; the remainder was traced later: exhaustive in `Cover3.rad_bisect_cover_ordered`): covered exactly: the remainder of the difference is positive and not the half turn,
 and the remainder of the midpoint before the last `normalize` is positive.
 Untraced: remainder of `b - a` negative or zero (all continuations); equal to `π`; midpoint remainder
 negative or zero. -/
@@ -286,7 +293,8 @@ theorem v1_angle_excl (a b : V1 K) : Excl (v1AnglePaths a b) := by
 theorem v1_angle_complement (a b : V1 K) : AnyOf (v1AnglePaths a b) ↔ ¬ AnyOf (v1AngleUntraced a b) := by
   simp only [v1AnglePaths, v1AngleUntraced, clampUnclamped, clampHigh, clampLow, AnyOf, Excl]; tauto
 /-- NOT exhaustive: covered exactly the pairs whose cosine is in `[-1, 1]`; both clamped paths are untraced
-(they need a rounded quotient: over an exact field the cosine of two 1-vectors is `±1` or `0/0 = 0`) -/
+(they need a rounded quotient: over an exact field the cosine of two 1-vectors is `±1` or `0/0 = 0`; they stay untraced, and are
+shown infeasible whenever `sqrt(t·t)² = t·t` in `Cover4.v1_angle_cover_exact`) -/
 theorem v1_angle_cover (a b : V1 K) :
     AnyOf (v1AnglePaths a b) ↔
       (-1 ≤ V1.dot a b / (a.magnitude * b.magnitude) ∧ V1.dot a b / (a.magnitude * b.magnitude) ≤ 1) := by
@@ -396,7 +404,7 @@ theorem planar_partition_all (fovy a h n f : K) : AnyOf (planarPaths fovy a h n 
   grind (splits := 60)
 theorem planar_excl (fovy a h n f : K) : Excl (planarPaths fovy a h n f) :=
   excl_append_left _ _ (planar_partition_excl fovy a h n f)
-/-- NOT exhaustive: the covered set is the complement of the seven untraced classes -/
+/-- NOT exhaustive (this file's path list; the remainder was traced later: exact remainder in `Cover4.planar_cover`, exhaustive away from it in `Cover4.planar_cover_regular`): the covered set is the complement of the seven untraced classes -/
 theorem planar_cover (fovy a h n f : K) :
     AnyOf (planarPaths fovy a h n f) ↔ ¬ AnyOf (planarUntraced fovy a h n f) :=
   cover_of_partition _ _ (planar_partition_excl fovy a h n f) (planar_partition_all fovy a h n f)
@@ -460,7 +468,7 @@ theorem perspective_partition_all (fovy a n f : K) :
   grind (splits := 60)
 theorem perspective_excl (fovy a n f : K) : Excl (perspectivePaths fovy a n f) :=
   excl_append_left _ _ (perspective_partition_excl fovy a n f)
-/-- NOT exhaustive: the covered set is the complement of the two untraced classes -/
+/-- NOT exhaustive (this file's path list; the remainder was traced later: exhaustive in `Cover4.perspective_cover`): the covered set is the complement of the two untraced classes -/
 theorem perspective_cover (fovy a n f : K) :
     AnyOf (perspectivePaths fovy a n f) ↔ ¬ AnyOf (perspectiveUntraced fovy a n f) :=
   cover_of_partition _ _ (perspective_partition_excl fovy a n f) (perspective_partition_all fovy a n f)
@@ -491,7 +499,7 @@ theorem perspective_deg_excl (fovy a n f : K) : Excl (perspectiveDegPaths fovy a
   simp only [perspectiveDegPaths, perspectivePaths, nth, AnyOf, Excl]
   generalize degToRad fovy = d
   excl_tac
-/-- NOT exhaustive: negative angle (panic), or everything accepted with a non-negative aspect.
+/-- NOT exhaustive (this file's path list; the remainder was traced later: exhaustive in `Cover4.perspective_deg_cover`): negative angle (panic), or everything accepted with a non-negative aspect.
 Untraced under this entry point: the other seven paths of `perspectivePaths` and its two untraced classes. -/
 theorem perspective_deg_cover (fovy a n f : K) :
     AnyOf (perspectiveDegPaths fovy a n f) ↔
@@ -508,14 +516,14 @@ theorem perspective_deg_cover (fovy a n f : K) :
 def frustumSPaths (l r b t n f : K) : List Prop := [ nth (Cover.frustumPaths l r b t n f) 0 ]
 def perspectiveSPaths (fovy a n f : K) : List Prop := [ nth (perspectivePaths fovy a n f) 0 ]
 def planarSPaths (fovy a h n f : K) : List Prop := [ nth (planarPaths fovy a h n f) 0 ]
-/-- NOT exhaustive -/
+/-- NOT exhaustive (this file's path list; the remainder was traced later: exhaustive in `Cover4.frustum_s_cover`) -/
 theorem frustum_s_cover (l r b t n f : K) : AnyOf (frustumSPaths l r b t n f) ↔ (l ≤ r ∧ b ≤ t ∧ n ≤ f) := by
   simp only [frustumSPaths, Cover.frustumPaths, nth, AnyOf, or_false]
-/-- NOT exhaustive -/
+/-- NOT exhaustive (this file's path list; the remainder was traced later: exhaustive in `Cover4.perspective_s_cover`) -/
 theorem perspective_s_cover (fovy a n f : K) :
     AnyOf (perspectiveSPaths fovy a n f) ↔ nth (perspectivePaths fovy a n f) 0 := by
   simp only [perspectiveSPaths, AnyOf, or_false]
-/-- NOT exhaustive -/
+/-- NOT exhaustive (this file's path list; the remainder was traced later: `Cover4.planar_s_cover`, `Cover4.planar_s_cover_regular`) -/
 theorem planar_s_cover (fovy a h n f : K) :
     AnyOf (planarSPaths fovy a h n f) ↔ nth (planarPaths fovy a h n f) 0 := by
   simp only [planarSPaths, AnyOf, or_false]
@@ -562,7 +570,7 @@ theorem between_vectors_branch_opposite (a b : V3 K) :
 
 /-- `Basis3::between_vectors`: only `C15Paths.t_b3_between_vectors_general` -/
 def b3BetweenVectorsPaths (a b : V3 K) : List Prop := [ nth (betweenVectorsPaths a b) 1 ]
-/-- NOT exhaustive: the model's `general` branch only; untraced under this entry point: `same` and both
+/-- NOT exhaustive (this file's path list; the remainder was traced later: exhaustive in `Cover4.b3_between_vectors_cover`): the model's `general` branch only; untraced under this entry point: `same` and both
 `opposite` paths (traced as `Quaternion::between_vectors`, of which this is `.into()`) -/
 theorem b3_between_vectors_cover (a b : V3 K) :
     AnyOf (b3BetweenVectorsPaths a b) ↔ Quat.betweenVectorsBranch a b = .general := by
@@ -615,7 +623,7 @@ theorem from_arc_partition_all (a b : V3 K) : AnyOf (fromArcPaths a b ++ fromArc
   cases t1 <;> cases t2 <;> cases tx <;> cases ty <;> cases tz <;> simp
 theorem from_arc_excl (a b : V3 K) : Excl (fromArcPaths a b) :=
   excl_append_left _ _ (from_arc_partition_excl a b)
-/-- NOT exhaustive: the covered set is the complement of the two untraced paths -/
+/-- NOT exhaustive (this file's path list; the remainder was traced later: exhaustive in `Cover4.from_arc_cover` given `ulps_eq!(0, 0)`): the covered set is the complement of the two untraced paths -/
 theorem from_arc_cover (a b : V3 K) : AnyOf (fromArcPaths a b) ↔ ¬ AnyOf (fromArcUntraced a b) :=
   cover_of_partition _ _ (from_arc_partition_excl a b) (from_arc_partition_all a b)
 omit [LinearOrder K] [Approx K] [Transc K] [Lits K] in
@@ -708,11 +716,11 @@ theorem db2_inverse_transform_cover_pythagoras (s a : K)
 `C08Paths.t_db2_inverse_transform_vector` -/
 def db3InverseTransformVectorPaths (s : K) (q : Quat K) : List Prop := [ ulpsEqD s 0 = false ∧ q.toM3.det ≠ 0 ]
 def db2InverseTransformVectorPaths (s a : K) : List Prop := [ ulpsEqD s 0 = false ∧ (M2.fromAngle a).det ≠ 0 ]
-/-- NOT exhaustive: untraced: `ulps_eq!(scale, 0)` true (`None`), singular rotation matrix (panic) -/
+/-- NOT exhaustive (this file's path list; the remainder was traced later: exhaustive in `Cover4.db3_inverse_transform_vector_cover`): untraced: `ulps_eq!(scale, 0)` true (`None`), singular rotation matrix (panic) -/
 theorem db3_inverse_transform_vector_cover (s : K) (q : Quat K) :
     AnyOf (db3InverseTransformVectorPaths s q) ↔ (ulpsEqD s 0 = false ∧ q.toM3.det ≠ 0) := by
   simp only [db3InverseTransformVectorPaths, AnyOf, or_false]
-/-- NOT exhaustive: untraced: `ulps_eq!(scale, 0)` true (`None`), singular rotation matrix (panic) -/
+/-- NOT exhaustive (this file's path list; the remainder was traced later: `Cover4.db2_inverse_transform_vector_cover`, exhaustive given `cos² + sin² = 1` in `Cover4.db2_inverse_transform_vector_cover_pythagoras`): untraced: `ulps_eq!(scale, 0)` true (`None`), singular rotation matrix (panic) -/
 theorem db2_inverse_transform_vector_cover (s a : K) :
     AnyOf (db2InverseTransformVectorPaths s a) ↔ (ulpsEqD s 0 = false ∧ (M2.fromAngle a).det ≠ 0) := by
   simp only [db2InverseTransformVectorPaths, AnyOf, or_false]
@@ -720,13 +728,13 @@ theorem db2_inverse_transform_vector_cover (s a : K) :
 /-- `Decomposed<_, Quaternion>::look_at` (deprecated alias of `look_at_lh`): `C08Paths.t_dq_look_at`, the `trace`
 path of `From<Matrix3> for Quaternion` only -/
 def dqLookAtPaths (e c : P3 K) (u : V3 K) : List Prop := Cover.dqLookAtLhPaths e c u
-/-- NOT exhaustive: one of the five paths of the conversion -/
+/-- NOT exhaustive (this file's path list; the remainder was traced later: exhaustive in `Cover4.dq_look_at_cover`): one of the five paths of the conversion -/
 theorem dq_look_at_cover (e c : P3 K) (u : V3 K) :
     AnyOf (dqLookAtPaths e c u) ↔ (M3.lookToLh (c - e) u).toQuatBranch = .trace := Cover.dq_look_at_lh_cover e c u
 /-- `Decomposed<_, Basis2>::look_at_lh`: `C08Paths.t_db2_look_at_lh`, the no-flip side of `Matrix2::look_at` only.
 (`Decomposed<_, Basis3>::look_at{,_lh,_rh}` make no comparison: `C08Paths.t_db3_look_at*`.) -/
 def db2LookAtLhPaths (e c : P2 K) (u : V2 K) : List Prop := [ ¬ u.y * (c - e).x ≤ u.x * (c - e).y ]
-/-- NOT exhaustive: untraced: the flip side -/
+/-- NOT exhaustive (this file's path list; the remainder was traced later: exhaustive in `Cover4.db2_look_at_lh_cover`): untraced: the flip side -/
 theorem db2_look_at_lh_cover (e c : P2 K) (u : V2 K) :
     AnyOf (db2LookAtLhPaths e c u) ↔ u.x * (c.y - e.y) < u.y * (c.x - e.x) := by
   simp only [db2LookAtLhPaths, AnyOf, or_false, not_le, P2.subp_def]
@@ -756,7 +764,7 @@ theorem m2_look_at_stable_cover (flip : Bool) : AnyOf (m2LookAtStablePaths flip)
   simp only [m2LookAtStablePaths, AnyOf, Excl]; cases flip <;> simp
 /-- `Basis2::look_at_stable`: only `C09Paths.t_b2_look_at_stable_flip` -/
 def b2LookAtStablePaths (flip : Bool) : List Prop := [ flip = true ]
-/-- NOT exhaustive: untraced: `flip = false` (same code as `Matrix2::look_at_stable`, traced there) -/
+/-- NOT exhaustive (this file's path list; the remainder was traced later: exhaustive in `Cover4.b2_look_at_stable_cover`): untraced: `flip = false` (same code as `Matrix2::look_at_stable`, traced there) -/
 theorem b2_look_at_stable_cover (flip : Bool) : AnyOf (b2LookAtStablePaths flip) ↔ flip = true := by
   simp only [b2LookAtStablePaths, AnyOf, or_false]
 /-- `Basis2::look_at`: `C09Paths.t_b2_look_at_flip`, `C09Paths.t_b2_look_at_noflip`: the comparison of `Matrix2::look_at` -/
@@ -766,7 +774,7 @@ theorem b2_look_at_excl (d u : V2 K) : Excl (b2LookAtPaths d u) := Cover.m2_look
 theorem b2_look_at_cover (d u : V2 K) : AnyOf (b2LookAtPaths d u) ↔ True := Cover.m2_look_at_cover d u
 /-- `Quaternion::look_at`: `C09Paths.t_q_look_at`, the `trace` path of the conversion only -/
 def qLookAtPaths (d u : V3 K) : List Prop := [ 0 ≤ (M3.lookToLh d u).trace ]
-/-- NOT exhaustive: one of the five paths of `From<Matrix3> for Quaternion`; the other four are untraced under this
+/-- NOT exhaustive (this file's path list; the remainder was traced later: exhaustive in `Cover4.q_look_at_cover`): one of the five paths of `From<Matrix3> for Quaternion`; the other four are untraced under this
 entry point (they are traced as `m3.to_quat` and as `Quaternion::from(Basis3)`) -/
 theorem q_look_at_cover (d u : V3 K) :
     AnyOf (qLookAtPaths d u) ↔ (M3.lookToLh d u).toQuatBranch = .trace := by
